@@ -34,7 +34,7 @@ FRESH_LIKE = {'np.empty_like', 'np.zeros_like'}
 FRESH_SHAPE = {'np.empty', 'np.zeros'}
 OTHER = ('other', '')
 MUTATORS = {'fill', 'sort', 'resize', 'put', 'itemset', 'setflags', 'partition', 'byteswap', 'setfield'}     # in-place methods of ndarray
-CHECK_HELPERS = {'_check_rank'}       # helpers whose own guards are extracted by translator/guards.py (`guards_convolve__check_rank`)
+CHECK_HELPERS = {'_check_rank', '_check_interpolate'}       # helpers whose own guards are extracted by translator/guards.py (`guards_convolve__check_rank`)
 
 
 def _q(s: str) -> str:
@@ -144,6 +144,45 @@ class _Walker:
         return self.funcs[key]
 
     quiet = False
+
+    def check_summary(self, name):
+        """[(checker, checker parameter, own parameter)]: the checker is called, at the top level of `name`, with the very object
+        `name` received for its own parameter (directly, or through a helper that does so)"""
+        if name in self.stack or self.funcs.get(name) is None:
+            return []
+        key = ('#checks', name)
+        if key not in self.funcs:
+            node = self.funcs[name]
+            a = node.args
+            params = [x.arg for x in a.posonlyargs + a.args + a.kwonlyargs]
+            w = _Walker(node, {}, self.tables, self.funcs, self.stack + (name,))
+            w.quiet = True
+            loc = {x: ('pass', x) for x in params}
+            pv = {x: fresh_vid() for x in params}
+            loc.update({'#' + x: v for x, v in pv.items()})
+            w.walk(node.body, loc)
+            back = {v: x for x, v in pv.items()}
+            self.funcs[key] = [(chk, cp, back[v]) for chk, hv in w.checks for cp, v in hv if v in back]
+        return self.funcs[key]
+
+    def note_check(self, call, loc):
+        if not isinstance(call.func, ast.Name) or self.funcs.get(call.func.id) is None:
+            return
+        name = call.func.id
+        h = self.funcs[name]
+        hp = [x.arg for x in h.args.args]
+        bound = {p_: a for p_, a in zip(hp, call.args)}
+        bound.update({kw.arg: kw.value for kw in call.keywords if kw.arg})
+        vids = {p_: loc['#' + a.id] for p_, a in bound.items() if isinstance(a, ast.Name) and ('#' + a.id) in loc}
+        if name in CHECK_HELPERS:
+            self.checks.append((name, sorted(vids.items())))
+        else:
+            by = {}
+            for chk, cp, own in self.check_summary(name):
+                if own in vids:
+                    by.setdefault(chk, []).append((cp, vids[own]))
+            for chk, lst in by.items():
+                self.checks.append((chk, lst))
 
     # -- expressions ----------------------------------------------------------------------------------------------
     def link(self, e, loc):
@@ -288,6 +327,8 @@ class _Walker:
                 return False
             if isinstance(s, ast.Assign):
                 self.record_calls(s.value, loc)
+                if isinstance(s.value, ast.Call) and body is self.fn.body:
+                    self.note_check(s.value, loc)
                 v = self.link(s.value, loc)
                 for t in s.targets:
                     self.assign_target(t, v, loc)
@@ -345,12 +386,8 @@ class _Walker:
                         for kw in n.keywords:
                             if kw.arg == 'out' and isinstance(kw.value, ast.Name):
                                 self.mutated(kw.value.id, loc)
-                if (isinstance(s, ast.Expr) and isinstance(s.value, ast.Call) and isinstance(s.value.func, ast.Name)
-                        and s.value.func.id in CHECK_HELPERS and self.funcs.get(s.value.func.id) is not None and body is self.fn.body):
-                    h = self.funcs[s.value.func.id]
-                    hp = [x.arg for x in h.args.args]
-                    self.checks.append((s.value.func.id, [(p_, loc['#' + a.id]) for p_, a in zip(hp, s.value.args)
-                                                          if isinstance(a, ast.Name) and ('#' + a.id) in loc]))
+                if isinstance(s, ast.Expr) and isinstance(s.value, ast.Call) and body is self.fn.body:
+                    self.note_check(s.value, loc)
         return True
 
 
@@ -397,7 +434,8 @@ REQUIRED_SITES = [('convolve.find', '_convolve.find2d'), ('convolve.convolve', '
                   ('labeled.bbox', '_bbox.bbox_labeled'), ('histogram.fullhistogram', '_histogram.histogram')]
 
 
-REQUIRED_FLOWS = [('convolve.rank_filter', '_check_rank', '_convolve.rank_filter'), ('convolve.median_filter', '_check_rank', '_convolve.rank_filter')]
+REQUIRED_FLOWS = [('interpolate.shift', '_check_interpolate', '_interpolate.zoom_shift'), ('interpolate.zoom', '_check_interpolate', '_interpolate.zoom_shift'),
+                  ('convolve.rank_filter', '_check_rank', '_convolve.rank_filter'), ('convolve.median_filter', '_check_rank', '_convolve.rank_filter')]
 
 
 def extract(repo: Path, native_params: dict):
